@@ -992,15 +992,18 @@ def _recs(repo, col):
                     all(T.find(a, lambda y: y.op == "attr" and y.name == "recordings") is not None for a in x.args))
         one_pass = T.find(t, lambda x: x.op in ("comp", "listacc")) is not None
         in_order = zc is not None and one_pass and t.op == "mcall" and t.name in ("asarray", "array", "stack")
-        forms.append(zc.key() if zc is not None else None)
+        forms.append(frozenset(a_.key() for a_ in zc.args) if zc is not None else None)   # which sequences are walked in lock step
         col.add(R, gfi, f"{lab} gather: one row per recording in the order of the recordings table",
                 "DISCHARGED" if (in_order and regroup is None) else ("VIOLATED" if regroup is not None else "UNDECIDED"),
                 "rows are stacked from a single pass over zip(rec_states, rec_inds)" if in_order and regroup is None else
                 (f"the {lab} gather regroups the recordings with `{regroup.name}` ({regroup.short(60)}): rows come back grouped, not in "
                  f"the order record() was called (e.g. v@A, m@A, v@B is returned as v@A, v@B, m@A)" if regroup is not None else
                  f"row order of {t.short(80)} not derivable"), node=t.node or fn)
-    col.check(len(set(forms)) == 1 and forms[0] is not None, R, fi, "initial and per-step gathers iterate the same sequence",
-              "same zip(rec_states, rec_inds)", "the initial column and the per-step rows are gathered in different orders", node=asg)
+    col.add(R, fi, "initial and per-step gathers iterate the same sequence",
+            "UNDECIDED" if None in forms else ("DISCHARGED" if len(set(forms)) == 1 else "VIOLATED"),
+            "same zip(rec_states, rec_inds)" if None not in forms and len(set(forms)) == 1 else
+            ("the sequence one of the gathers walks is not derivable" if None in forms else
+             "the initial column and the per-step rows are gathered in different orders"), node=asg)
     # the two sequences that are zipped come from the columns of the recordings table, in table order (a per-element
     # conversion of the index -- global edge index -> position within the synapse type -- keeps the order)
     zz = forms[0] if forms and forms[0] is not None else None
